@@ -22,7 +22,7 @@ Cs == { [Base("cs", "config") EXCEPT !.hasName = FALSE, !.capacity = k, !.hasPar
 Fac == { [Base("faces", v) EXCEPT !.hasName = FALSE, !.faceId = f, !.mtu = m, !.flagsMask = fm] :
            v \in {"update", "destroy"}, f \in {-1, 800, 9999}, m \in {-1, 0, 100, 1500}, fm \in {"none", "both", "flags"} }
        \cup { [Base("faces", "update") EXCEPT !.hasName = FALSE, !.faceId = f, !.pers = p, !.mtu = m, !.flagsMask = fm, !.fl = x, !.mk = 5] :
-                f \in {-1, 800}, p \in {0, 1, 2}, m \in {-1, 0}, fm \in {"none", "both", "flags"}, x \in {0, 4, 5} }
+                f \in {800}, p \in {0, 1, 2}, m \in {-1, 0}, fm \in {"none", "both"}, x \in {0, 5} }
 Cre == { [Base("faces", "create") EXCEPT !.hasName = FALSE, !.create = k, !.hasParams = hp] :
            k \in {"nouri", "smallmtu", "baduri", "flagsonly", "conflict", "multicast", "ondemand", "scheme"}, hp \in {TRUE} }
 Short == { [Base(m, "") EXCEPT !.hasParams = FALSE, !.hasName = FALSE] : m \in {"", "rib", "faces"} }
